@@ -34,6 +34,7 @@ def describe(ck):
     ck.rule("R09d", "'not given' is a negative constant from init_param to aln_param_init: option table, "
                     "option cases, and same-named arguments sit in same-named parameter positions")
     ck.rule("R09e", "documented DNA numbers: match/mismatch/gpo/gpe/tgpe of dna and internal equal README's list")
+    ck.rule("R09i", "every per-type parameter setter assigns gpo, gpe and tgpe (the object is malloc'ed): sibling setters agree")
     ck.rule("R09f", "set_gap_penalties_n copies each base penalty column (55/56/57) into the column of the same kind the kernels read (27/28/29) on every path, border column and column loop")
     ck.rule("R09g", "make_profile_n stores the negated penalty of the matching kind into every gap column (23/24/25 mod 32)")
     ck.rule("R09h", "update_n: in every branch the gap events counted (columns 23/24/25) and the penalties charged are of the same kinds and weighted by the same group size")
@@ -612,6 +613,39 @@ def r09e(ck, prog):
                              ma, mm, README_DNA["match"], README_DNA["mismatch"]), prog.config)
 
 
+# --------------------------------------------------------------------------- R09i: every parameter setter is complete
+def r09i(ck, prog):
+    """the parameter object is allocated with malloc: every per-type setter aln_param_init can dispatch to assigns all three
+    gap penalties (itself or through a helper), so that none of them is whatever the heap held - siblings must agree"""
+    from ..effects import Effects
+    E = Effects(prog)
+    A = prog.fn("aln_param_init")
+    setters = {}
+    for c in A.body.calls():
+        H = prog.functions.get(c.callee) if c.callee else None
+        if H is None or H.body is None or H.file != A.file:
+            continue
+        idx = next((i for i, p_ in enumerate(H.params) if p_["ty"].replace(" ", "").replace("const", "") == "structaln_param*"), None)
+        if idx is None or not any(x.k in ("SwitchStmt", "CaseStmt", "DefaultStmt", "IfStmt") for x in c.ancestors()):
+            continue
+        S = E.of_param(H.name, idx)
+        if S.unknown:
+            raise AnalysisBroken("R09i: effect summary of %s incomplete: %s" % (H.name, S.unknown[0]))
+        setters[H.name] = ({p_[0] for p_ in S.writes if p_}, c)
+    if len(setters) < 3:
+        raise AnalysisBroken("R09i slot: only %d per-type setters found in aln_param_init" % len(setters))
+    for name, (w, c) in sorted(setters.items()):
+        missing = [p_ for p_ in PENALTIES if p_ not in w]
+        where = site(prog, prog.fn(name), "setter")
+        ck.inst("R09i", where, "%s assigns %s" % (name, sorted(w & set(PENALTIES))), prog.config)
+        if missing:
+            others = sorted(n_ for n_, (w2, _) in setters.items() if all(p_ in w2 for p_ in missing))
+            ck.violation("R09i", "R09i/%s/%s" % (name, "+".join(missing)), where,
+                         "%s does not assign %s (its siblings %s do): the parameter object comes from malloc, so with this type and no "
+                         "explicit value the penalty is whatever an earlier allocation left there - the alignment depends on earlier calls" % (
+                             name, "/".join(missing), others[:3]), prog.config)
+
+
 # --------------------------------------------------------------------------- R09f-h: the penalties on their way to the kernels
 COL_CLASS = {23: "gpo", 24: "gpe", 25: "tgpe"}       # per-column gap columns, modulo 32 (23..25 counters, 55..57 base, 27..29 scaled)
 
@@ -797,6 +831,7 @@ def run(ck, progs):
         ck.attempt(r09f, ck, prog)
         ck.attempt(r09g, ck, prog)
         ck.attempt(r09h, ck, prog)
+        ck.attempt(r09i, ck, prog)
     return ("Static rules over the resolved AST of aln_param.c, run_kalign.c, parameters.c and kalign.h: "
             "(guard variable, source variable, target field) triples of the three overrides; the (sequence kind x "
             "type constant) table of both switch statements with fallthrough and default followed; the ordered "
